@@ -34,6 +34,7 @@ def run(ctx):
     floor(ctx, 'writers of contents', n, 4)
     observers(ctx)
     cached_results_intact(ctx, 'C10.R2')
+    no_writes_into_shared_contents(ctx, 'C10.R1')
     # contents are keyed by Substance and the observers are memoised by the container: key laws of both classes
     from .identity import identity_discipline
     identity_discipline(ctx, 'C10.R2')
@@ -389,3 +390,27 @@ def cached_results_intact(ctx, rule):
     ctx.ob(rule, fi0, fi0.node.lineno, 'no result of a cached observer is mutated in place', bad == 0,
            fact=f"{n} mutation events examined; cached observers: {cached}",
            why='see the events reported', key='cached observers intact')
+
+
+def no_writes_into_shared_contents(ctx, rule):
+    """A shallow copy of a container shares its contents dictionary with the original: an amount written through the copy
+    shows up in the original too, whose stored volume was computed before (engine O, class SHELL: the object is new, what
+    it holds is not)."""
+    from ..fresh import Fresh, SHELL
+    from ..effects import mutating_call_oracle
+    model = ctx.model
+    fr = Fresh(model, mutating_call_oracle(model))
+    n, bad = 0, 0
+    for fi in model.funcs.values():
+        if fi.parent is not None or fi.mod.rel != 'pyplate/pyplate.py' or fi.cls is None or fi.cls.name != 'Container':
+            continue
+        for e in fr.analyse(fi):
+            n += 1
+            if e.cls == SHELL and not e.ok and 'shallow copy' in e.why:
+                bad += 1
+                ctx.ob(rule, fi, e.line, f"{e.desc} [{e.fi.qualname}]", False, fact=f"{e.cls}: {e.why}",
+                       why='the contents dictionary is shared with the object that was copied: that object now holds the new '
+                           'amounts under its old volume', key=f"write into shared contents: {e.target_text}")
+    anchor = model.func('Container._add')
+    ctx.ob(rule, anchor, anchor.node.lineno, 'no Container method writes through a shallow copy', bad == 0,
+           fact=f"{n} mutation events examined", why='see the events reported', key='shallow copies written')
